@@ -1602,6 +1602,27 @@ class Interp:
                     n += 1
                     if n > 100000:
                         raise Unsupported("for_each over an unbounded iterator")
+            if last == "try_for_each":
+                # the closure returns a Result / Option: the first failure is the result, otherwise Ok(()) / Some(())
+                n = 0
+                kind = None
+                while True:
+                    try:
+                        x = src.step(self, fr, t, depth)
+                    except StopIteration:
+                        if kind is None:
+                            rt = " ".join(str(a) for a in (fargs or []))
+                            kind = "std::option::Option" if re.search(r"option::Option<\(\)>", rt) and "Result<" not in rt else "std::result::Result"
+                        return mk_variant(kind, "Ok" if kind.endswith("Result") else "Some", [UNIT])
+                    r = self.apply_callable(args[1], [x], fr, t, depth)
+                    if not isinstance(r, Agg) or r.variant not in ("Ok", "Err", "Some", "None"):
+                        raise Unsupported("try_for_each with a closure returning %r" % (r,))
+                    kind = "std::result::Result" if r.variant in ("Ok", "Err") else "std::option::Option"
+                    if r.variant in ("Err", "None"):
+                        return r
+                    n += 1
+                    if n > 100000:
+                        raise Unsupported("try_for_each over an unbounded iterator")
             if last == "fold":
                 acc = args[1]
                 n = 0
